@@ -6,6 +6,27 @@ import os
 ROOT = os.path.dirname(os.path.dirname(os.path.abspath(__file__)))
 
 CLAIMED = {
+    "C04": dict(
+        technique="Hypothesis property tests against scipy.stats / docstring reference densities, adaptive quadrature for normalisation and cdf, metamorphic equality of all Gaussian parameterisations",
+        text="Generated parameters, passing modes (vector, scalar broadcast over geometry=n and (a,b), list, callable conditioned later) "
+             "and points inside/outside the support for every family; logpdf/pdf/cdf/logd compared with independent references; for "
+             "dim=1 exp(logpdf) is integrated by adaptive quadrature (=1, and cdf = running integral); one covariance rendered in "
+             "4 parameterisations x 5 storage forms x 4 square-root kinds on both sides of the (lowered, and in the thorough tier true) "
+             "dense/sparse switch must equal multivariate_normal(mean, Sigma); MRF priors via the C20 references.",
+        note="Trusted: scipy.stats, scipy.integrate.quad. |logpdf| <= 600. SmoothedLaplace is compared with its documented formula only "
+             "(the documented formula is itself not normalised). Recorded findings excluded and counted.",
+        design="3/C04"),
+    "C05": dict(
+        technique="Hypothesis property tests: scripted random generator reads the exact affine law of Gaussian/GMRF/Lognormal draws; PIT + KS (two-stage) for the other families; stream determinism and shape checks",
+        text="For affine samplers a duck-typed generator fed with zero/unit vectors reveals offset and linear map of the draw exactly: "
+             "offset must be the mean and B B^T the inverse (pseudo-inverse for intrinsic GMRFs) of the Hessian of the object's own "
+             "log-density. Other families: probability-integral transform of 20k (quick) / 100k (thorough) draws against the reference "
+             "marginal cdf (own logpdf integrated for the modified half-normal), KS test with a confirming second stage. Plus: same "
+             "generator state => same draws, global state untouched, one draw = array with the geometry, N draws = Samples with N "
+             "columns, conditional distributions refuse.",
+        note="Statistical part detects distributional errors of a few percent (KS at n=20k: sup-distance ~0.015), not smaller; "
+             "exact part has tolerance 1e-8 (1e-6 through eigendecompositions / regularised Cholesky).",
+        design="3/C05"),
     "C07": dict(
         technique="Hypothesis property tests: basis probing of forward/adjoint/get_matrix/T (exact decision of a linear identity) + inner-product identity",
         text="For each generated LinearModel (dense/sparse matrix or function pair, generated domain/range geometries) and each "
